@@ -109,9 +109,15 @@ func runC11(c *eng.Ctx) {
 		c.Check(!late && before, "memory-before-files", fil.Instr, f, "the memory databases are filtered before the file snapshot is taken", "fileFilter can run before memoryFilter")
 		for _, s := range []eng.Site{mem, fil} {
 			nilE, _ := eng.ErrCheckEdges(f, s.Instr.(ssa.Value))
-			c.Check(len(nilE) > 0, "error-propagates:"+shortInstr(p, s.Instr), s.Instr, f, "an error of either part fails the read (no silent partial answer)", "")
+			c.Check(len(nilE) > 0, "error-propagates:"+shortInstr(p, s.Instr), s.Instr, f, "a real error of either part fails the read (no silent partial answer)", "")
+			notFoundDoesNotHideTheRest(c, f, s, "part:"+shortInstr(p, s.Instr))
 		}
 		m := c.Fn(dfT + ".memoryFilter")
+		for _, cl := range eng.Closures(m) {
+			for i, s := range p.Sites(cl, invokeOn("memDB", "Filter")) {
+				notFoundDoesNotHideTheRest(c, cl, s, fmt.Sprintf("memory-database[%d]", i))
+			}
+		}
 		ls := p.Locks(m, nil)
 		for _, fld := range []string{"mutableMemDB", "immutableMemDB"} {
 			loads := p.Sites(m, eng.LoadField(dfT+"."+fld))
@@ -248,4 +254,65 @@ func runC11(c *eng.Ctx) {
 	c.Rule("ANCHOR", mfT+".FlushSeries{startAt}", func() { flusherAnchors(c) })
 	c.Rule("LAYOUT", "tsdb/tblstore/metricsdata{block footer}", func() { blockFooter(c) })
 	c.Rule("EXHAUSTIVE", "series/field{type tables}", func() { fieldTypeTables(c) })
+}
+
+// notFoundDoesNotHideTheRest (F12): a family read is the union of its parts (mutable memory database, immutable memory
+// database, files). A part that holds the metric but none of the queried series / fields answers with a not-found error; the
+// caller may give up (return an error) after a failing part only under a test that excludes not-found
+// (errors.Is(err, constants.ErrNotFound)), otherwise the data of the remaining parts is dropped with it.
+func notFoundDoesNotHideTheRest(c *eng.Ctx, f *ssa.Function, part eng.Site, label string) {
+	p := c.P
+	_, errE := eng.ErrCheckEdges(f, part.Instr.(ssa.Value))
+	if len(errE) == 0 {
+		c.Check(false, label+":error-checked", part.Instr, f, "the part's error is examined", "no err != nil branch")
+		return
+	}
+	isNotFoundTest := func(v ssa.Value) bool {
+		return eng.DependsOn(v, func(x ssa.Value) bool {
+			cl, ok := x.(*ssa.Call)
+			if !ok || cl.Common().StaticCallee() == nil || cl.Common().StaticCallee().Pkg == nil {
+				return false
+			}
+			g := cl.Common().StaticCallee()
+			if g.Pkg.Pkg.Path() != "errors" || g.Name() != "Is" || len(cl.Common().Args) != 2 {
+				return false
+			}
+			return eng.DependsOn(cl.Common().Args[1], func(y ssa.Value) bool {
+				gl, ok := y.(*ssa.Global)
+				return ok && gl.Pkg != nil && strings.HasSuffix(gl.Pkg.Pkg.Path(), "/constants") && gl.Name() == "ErrNotFound"
+			})
+		})
+	}
+	succ := map[ssa.Instruction]bool{}
+	for _, r := range eng.SuccessReturns(f) {
+		succ[r] = true
+	}
+	n := 0
+	for _, e := range errE {
+		first := e.B.Succs[e.Succ].Instrs[0]
+		for _, b := range f.Blocks {
+			for _, in := range b.Instrs {
+				r, ok := in.(*ssa.Return)
+				if !ok || succ[r] || b == f.Recover {
+					continue
+				}
+				if _, reach := eng.PathExists(eng.PathQuery{Fn: f, After: first, Target: func(x ssa.Instruction) bool { return x == in }}); !reach && first != in {
+					continue
+				}
+				// is this failing return reached from the part's error edge without passing another part?
+				n++
+				cds, _ := eng.GuardingConds(f, r)
+				g := false
+				for _, cd := range cds {
+					if isNotFoundTest(cd) {
+						g = true
+					}
+				}
+				c.Check(g, fmt.Sprintf("%s:gives-up-only-on-a-real-error[%d]", label, n), r, f,
+					"after a failing part the read is abandoned only under a test that excludes not-found (the other parts' data is kept when one part merely has nothing)",
+					"a failing return is reachable from the part's error edge without an errors.Is(err, constants.ErrNotFound) guard")
+			}
+		}
+	}
+	_ = p
 }
